@@ -2,7 +2,7 @@
    hence for every scheduler, workload and cluster. *)
 From Coq Require Import ZArith Bool List Lia ZifyBool.
 Import ListNotations.
-From Verif Require Import Model.Val Gen.Src_Task Gen.Src_Event Model.Sim Proofs.TaskP.
+From Verif Require Import Model.Val Gen.Src_Task Gen.Src_Event Gen.Src_TaskGraph Model.Sim Proofs.TaskP.
 Open Scope Z_scope.
 
 Arguments task_step : simpl never.
@@ -555,6 +555,22 @@ Qed.
 Lemma parents_done_same s s' x : s_tasks s' = s_tasks s -> parents_done s x -> parents_done s' x.
 Proof. intros E. apply parents_done_grows; [apply grows_refl; exact E|reflexivity|reflexivity]. Qed.
 
+(* the translated readiness test (Task.is_ready_to_run) gives what the invariant needs: the parents the task waits for
+   are complete (one of them for a join) and the task is SCHEDULED or PREEMPTED *)
+Lemma existsb_id_map {A} (f : A -> bool) l : existsb (fun b => b) (map f l) = existsb f l.
+Proof. induction l as [|a l IH]; cbn; [reflexivity|]. rewrite IH. reflexivity. Qed.
+Lemma forallb_id_map {A} (f : A -> bool) l : forallb (fun b => b) (map f l) = forallb f l.
+Proof. induction l as [|a l IH]; cbn; [reflexivity|]. rewrite IH. reflexivity. Qed.
+Lemma is_ready_spec s x : is_ready s x = true ->
+  parents_ok s x = true /\
+  (task_state_eqb (t_state (t_dyn x)) TS_SCHEDULED || task_state_eqb (t_state (t_dyn x)) TS_PREEMPTED) = true.
+Proof.
+  unfold is_ready, Src_TaskGraph.is_ready_to_run, parents_ok. intros H. apply andb_true_iff in H. destruct H as [Hp Hs].
+  split; [|exact Hs]. destruct (ti_terminal (t_info x)).
+  - apply andb_true_iff in Hp. destruct Hp as [Hp _]. rewrite existsb_id_map in Hp. exact Hp.
+  - rewrite forallb_id_map in Hp. exact Hp.
+Qed.
+
 Lemma pres_place W s t w req s' :
   Inv W s -> sim_step W s (EPlace t w req) = Some s' -> Inv W s'.
 Proof.
@@ -568,7 +584,7 @@ Proof.
   match goal with H : negb _ = true |- _ => rename H into G4 end.
   assert (Hnr : ~ In t (ids (s_res s))) by (intro X; apply resident_In in X; rewrite X in G4; discriminate G4).
   pose proof (inv_tasks W s I t x Hx) as T. destruct T as [T1 T2 T3 T4 T5 T6]. unfold st in *.
-  unfold is_ready in G2. apply andb_true_iff in G2. destruct G2 as [Gp Gs].
+  apply is_ready_spec in G2. destruct G2 as [Gp Gs].
   assert (Hs : t_state (t_dyn x) = TS_SCHEDULED).
   { apply orb_true_iff in Gs. destruct Gs as [Gs|Gs]; apply ts_eqb_true in Gs; [exact Gs|contradiction]. }
   constructor; cbn [s_clock s_tasks s_dom s_res s_cur].
